@@ -109,6 +109,66 @@ def gen_quad_product(rng):
     return {"op": "tree", "spin": fam is SPIN, "tree": tree}
 
 
+def gen_quad_rawkey(rng):
+    """quadratic kinds and long unsquashed keys (a label written 2-5 times next to 0-3 others) as constructor argument or raw
+    dict operand: the key check has to count what is left after squashing (x*x = x, z*z = 1), whatever the multiplicities"""
+    fam = rng.choice([BOOL, SPIN, SPIN])
+    kind = rng.choice([k for k in fam if k in QUAD])
+    uni = 'int' if kind.endswith("Matrix") else rng.choice(['int', 'pool'])
+    labs = G.labels(rng, uni, rng.choice([2, 3, 3, 4, 4]))
+
+    def longkey():
+        a = rng.choice(labs)
+        k = [a] * rng.choice([2, 3, 3, 4, 5])
+        rest = [l for l in labs if l != a]
+        for l in rng.sample(rest, rng.choice([0, 1, 2, 2, 3, 3][:2 + 2 * min(2, len(rest) - 1)]) if rest else 0):
+            k += [l] * rng.choice([1, 1, 1, 2, 3])
+        rng.shuffle(k)
+        return tuple(k)
+    ts = list({k: (k, G.coef(rng)) for k in [longkey() for _ in range(rng.randint(1, 2))]}.values())   # a dict literal keeps one
+    base = [(tuple(rng.sample(labs, 2)), G.coef(rng))] if rng.random() < 0.7 else []
+    r = rng.random()
+    if r < 0.35:
+        tree = {"t": "model", "kind": kind, "terms": G.jraw(base + ts)}
+    else:
+        a, b = {"t": "model", "kind": kind, "terms": G.jraw(base)}, {"t": "raw", "terms": G.jraw(ts)}
+        tree = {"t": "bin", "ip": rng.random() < 0.5, "op": rng.choice(["add", "sub"]), "a": a, "b": b}
+    return {"op": "tree", "spin": fam is SPIN, "tree": tree}
+
+
+def gen_tiny(rng):
+    """float coefficients far below 1 (small multiples of 2**-e, e = 26..45): products, squares and quotients whose
+    coefficients reach 2**-52 .. 2**-110 -- still exact doubles, so the implementation has to agree with the rational model
+    digit for digit; no non-zero coefficient, however small, may be rounded away or taken for zero"""
+    fam = rng.choice([BOOL, SPIN])
+    kind = rng.choice([k for k in fam if k not in QUAD])
+    uni = 'int' if kind.endswith("Matrix") else rng.choice(['int', 'pool'])
+    labs = G.labels(rng, uni, rng.randint(2, 4))
+    e = rng.randint(26, 45)
+
+    def leaf(raw=False):
+        ts, seen = [], set()
+        for _ in range(rng.randint(1, 3)):
+            k = tuple(rng.sample(labs, rng.randint(0, min(2, len(labs)))))
+            ks = tuple(sorted(k, key=C.enc))
+            if ks not in seen:
+                seen.add(ks)
+                ts.append((k, F(rng.choice([-3, -2, -1, 1, 2, 3, 5]), rng.choice([1, 2, 4])) / 2 ** e))
+        return {"t": "raw" if raw else "model", "kind": kind, "terms": G.jraw(ts), "fl": True}
+    r = rng.random()
+    if r < 0.45:
+        tree = {"t": "bin", "ip": rng.random() < 0.4, "op": "mul", "a": leaf(), "b": leaf(rng.random() < 0.3)}
+    elif r < 0.6:
+        tree = {"t": "pow", "ip": rng.random() < 0.4, "a": leaf(), "n": 2}
+    elif r < 0.8:
+        c = F(2) ** rng.randint(30, 60) * rng.choice([1, -1])
+        tree = {"t": "div", "ip": rng.random() < 0.4, "a": leaf(), "c": [c.numerator, c.denominator], "fl": True}
+    else:
+        c = F(rng.choice([1, -1, 3]), 2 ** rng.randint(30, 60))
+        tree = {"t": "bin", "ip": rng.random() < 0.4, "op": "mul", "a": leaf(), "b": {"t": "scalar", "c": [c.numerator, c.denominator], "fl": True}}
+    return {"op": "tree", "spin": fam is SPIN, "tree": tree}
+
+
 def gen_cancel(rng):
     """exact cancellation through other spellings of the same monomials: the second operand repeats terms of the first with
     their labels permuted, doubled (x*x = x) or, for spins, multiplied by the square of a label the model does not contain
@@ -157,6 +217,10 @@ def gen(rng, i, tier):
         return gen_quad_product(rng)
     if rng.random() < 0.07:
         return gen_cancel(rng)
+    if rng.random() < 0.07:
+        return gen_quad_rawkey(rng)
+    if rng.random() < 0.05:
+        return gen_tiny(rng)
     if rng.random() < 0.78:
         fam = rng.choice([BOOL, SPIN])
         uni = rng.choice(['int', 'pool'])
@@ -188,11 +252,12 @@ class Leaves:
 
 
 def build_leaf(n):
+    num = (lambda v: C.numf(v, 'f')) if n.get("fl") else C.num       # "fl": coefficients as python floats (exact dyadics)
     if n["t"] == "model":
-        return cls_of(n["kind"])({k: C.num(v) for k, v in G.unjraw(n["terms"])})
+        return cls_of(n["kind"])({k: num(v) for k, v in G.unjraw(n["terms"])})
     if n["t"] == "raw":
-        return {k: C.num(v) for k, v in G.unjraw(n["terms"])}
-    return C.num(F(*n["c"]))
+        return {k: num(v) for k, v in G.unjraw(n["terms"])}
+    return num(F(*n["c"]))
 
 
 def pyeval(n, leaves, protect=True):
@@ -236,6 +301,8 @@ def pyeval(n, leaves, protect=True):
     if t == "div":
         a = pyeval(n["a"], leaves, protect=not n["ip"])
         c = F(*n["c"])      # a Fraction divisor keeps int / int exact
+        if n.get("fl"):
+            c = C.numf(c, 'f')
         if n["ip"]:
             a /= c
             return a
@@ -471,4 +538,6 @@ def tags(case, out):
     t = case["tree"]
     res = ["tree:root=%s%s" % (t["t"], ":inplace" if t.get("ip") else ""),
            "tree:%s" % ("error:" + out["error"] if "error" in out else "ok:" + out["kind"])]
+    if '"fl": true' in __import__("json").dumps(t):
+        res.append("float-coefficients-below-2**-52")
     return res
